@@ -2,7 +2,7 @@ package main
 
 // C06: the paths natural-language text takes through both codecs, at call-chain level. The byte-level
 // escaper stringBytes is used by its contract (it appends one JSON string that a correct parser decodes
-// back to its argument); unescape is an uninterpreted function of its argument; everything between them
+// back to its argument) and proved against it in bytevc.go; unescape is an uninterpreted function of its argument; everything between them
 // (which function is applied to the text on which path, what the readers do with the decoded bytes) is the
 // real code.
 
@@ -57,15 +57,16 @@ func (ex *Exec) resolveUnder(t *Term, hyps []*Term) *Term {
 }
 
 func checkC06(w *World, c *Check) {
+	guard(c, "C06/bytes", func() { addByteLevel(w, c, "C06") })
 	c.Trusted = append(c.Trusted,
-		"contract of the byte-level escaper stringBytes (a copy of encoding/json's; outside the verified subset): it appends one JSON string literal that a JSON parser decodes back to exactly its argument; fastjson's GetStringBytes returns those decoded bytes",
+		"the escaper stringBytes is used at its call sites by its contract (it appends one JSON string literal that a JSON parser decodes back to its argument) and PROVED against that contract at byte level in this check (C06/bytes/stringBytes/..., all input lengths; lossy only for invalid UTF-8); fastjson's GetStringBytes returns those decoded bytes (assumed)",
 		"unescape is an uninterpreted function of its argument (eight bytes.ReplaceAll passes): nothing is assumed about it, so text that must come back unchanged must not pass through it",
 		"fastjson.Parser.ParseBytes applied to arbitrary text may fail or yield a value of any JSON type (uninterpreted); Object.Visit calls its callback once per member in order",
 		"encoding/gob round-trips a value of identical Go type (assumed pair, as in C03)",
 		"go/types + go/ssa; SMT solvers' unsat answers")
 	c.Assume = append(c.Assume,
 		"DECIDED (call-chain level): for a single value and for a two-entry language map, the real NaturalLanguageValues.MarshalJSON / LangRefValue.MarshalJSON are executed with the escaper by contract, the JSON text they assemble is decomposed into members, and the real JSONGetNaturalLanguageField (with the real LangRefValue.UnmarshalJSON, Content.UnmarshalJSON/UnmarshalText) is executed on it: every entry's text and tag must come back identical for ALL byte strings; the gob path NaturalLanguageValues.GobEncode/GobDecode, Content, LangRef, LangRefValue likewise",
-		"NOT DECIDED: that stringBytes meets its contract (escaping of quotes, backslashes, control characters, U+2028/9, invalid UTF-8) and what unescape does byte by byte; maps are bounded to two entries (bounded(2)), each entry arbitrary")
+		"NOT DECIDED: what unescape does byte by byte (eight bytes.ReplaceAll passes; it is outside both executors); maps are bounded to two entries (bounded(2)), each entry arbitrary")
 	nlvT := w.Type("NaturalLanguageValues")
 	lrvT := w.Type("LangRefValue")
 
